@@ -4,7 +4,9 @@
    compared with the log observed on the real code.  Verdict codes:
      0 ok | 1 the model's log differs from the observed log (correspondence) |
      2 the observation violates the property (computed from the observation alone) | 3 both |
-     4 the implementation hung (Run did not return / Terminated not reached within the watchdog) or panicked *)
+     4 the implementation hung (Run did not return / Terminated not reached within the watchdog) or panicked
+   The multiplexed model is run with the repaired handler wrapper (Mx.step true).  Property on the observation, all kinds:
+   Run returned, Terminated, no late handler call (o_after = 0 and no EHBegin after ERet in the log), no overlap. *)
 From BV Require Import Base.Prelude Model.Lifecycle.
 Local Open Scope nat_scope.
 
@@ -19,12 +21,17 @@ Record obs := mkObs {
   o_log : list ev;           (* oldest first *)
   o_ret : bool;              (* Run returned *)
   o_term : bool;             (* Terminated reached *)
-  o_after : nat;             (* handler calls begun after (Run returned and Terminated [and inner sources returned]) *)
+  o_after : nat;             (* handler calls begun late: after (Run returned and Terminated) — eternal, joining, subscription,
+                                file, multiplexed stress; multiplexed scenarios (sequential, so race-free): calls that began
+                                while the source's terminating channel was closed (IsTerminating() at the begin) *)
   o_overlap : bool;          (* two handler calls overlapped *)
   o_allshut : bool;          (* multiplexed: every started inner source is terminating at the end *)
   o_hang : bool }.
 
-Inductive mcmd := CRound | CDeliver (k : nat) | CShutdown | CArm (p n : nat).
+(* multiplexed scenario commands.  CHold: the next handler call to begin parks inside the handler (the goroutine keeps
+   handlerLock) until CRelease; while a call is held, CDeliver k lets ONE other inner source run into handlerLock (it waits
+   there); CRelease lets the held call return, then the waiting source go on. *)
+Inductive mcmd := CRound | CDeliver (k : nat) | CShutdown | CArm (p n : nat) | CHold | CRelease.
 
 Inductive c12_case :=
 | KEternal (supply : list (list iev)) (i : inj) (o : obs)
@@ -124,7 +131,7 @@ Definition prop_ok (k : c12_case) : bool :=
   | KJoining _ _ _ _ _ o => common_ok o && no_begin_after_ret false (o_log o)
   | KSub _ _ o => common_ok o && no_begin_after_ret false (o_log o)
   | KFile _ _ _ o => common_ok o && no_begin_after_ret false (o_log o)
-  | KMux _ _ _ o => common_ok o && o_allshut o && fail_then_down (o_log o) (o_log o)
+  | KMux _ _ _ o => common_ok o && no_begin_after_ret false (o_log o) && o_allshut o && fail_then_down (o_log o) (o_log o)
   | KStress o => common_ok o && o_allshut o
   end.
 
@@ -137,6 +144,10 @@ Definition et_cond (i : inj) (s : Et.state) : bool :=
   | InjFactory n => match Et.pcr s with Et.PFactory => Nat.eqb (S (Et.nsrc s)) n | _ => false end
   | _ => false
   end.
+(* a directed injection whose instant never comes is replaced by the harness by an idle-time Shutdown (from another goroutine) *)
+Definition et_fired (sup : list (list iev)) (i : inj) : bool :=
+  et_cond i (until (Et.step true) (et_cond i) Et.TRun (et_fuel sup) (Et.init sup)).
+Definition eff_inj (fired : bool) (i : inj) : inj := if fired then i else InjIdle.
 Definition et_model (sup : list (list iev)) (i : inj) : Et.state :=
   let f := et_fuel sup in
   let s1 := until (Et.step true) (et_cond i) Et.TRun f (Et.init sup) in
@@ -193,31 +204,46 @@ Definition fs_model (store : list (list (nat * bool))) (stop : bool) (i : inj) :
   rr_until Fs.step never (fs_threads n) f s2.
 
 (* multiplexed scenarios: the harness drives one goroutine at a time *)
-Record mxi := mkMxi { m_s : Mx.state; m_arm : option (nat * nat) }.
-Definition mx_x (s : Mx.state) : Mx.state := until Mx.step never Mx.TX 6 s.
-Definition in_handler (s : Mx.state) : bool :=
-  existsb (fun i => match Mx.i_pc i with Mx.IInH _ _ => true | _ => false end) (Mx.inners s).
+Record mxi := mkMxi { m_s : Mx.state; m_arm : option (nat * nat);
+                      m_hold : bool;            (* CHold given: the next handler call parks *)
+                      m_held : option nat;      (* the inner source whose handler call is parked *)
+                      m_wait : option nat }.    (* the inner source waiting for handlerLock meanwhile *)
+Definition set_ms (m : mxi) (s : Mx.state) : mxi := mkMxi s (m_arm m) (m_hold m) (m_held m) (m_wait m).
+Definition mstep : Mx.state -> Mx.tid -> Mx.state := Mx.step true.
+Definition mx_x (s : Mx.state) : Mx.state := until mstep never Mx.TX 6 s.
+Definition in_handler_k (k : nat) (s : Mx.state) : bool :=
+  match nth_error (Mx.inners s) k with
+  | Some i => match Mx.i_pc i with Mx.IInH _ _ => true | _ => false end
+  | None => false
+  end.
+Definition wants_lock (k : nat) (s : Mx.state) : bool :=
+  match nth_error (Mx.inners s) k with
+  | Some i => match Mx.i_pc i with Mx.IWant _ _ => true | _ => false end
+  | None => false
+  end.
 Definition arm_hit (a : option (nat * nat)) (s : Mx.state) : bool :=
   match a with
   | None => false
-  | Some (27, n) => in_handler s && Nat.eqb (Mx.hbegun s) n
+  | Some (27, n) => match Mx.log s with EHBegin _ _ :: _ => Nat.eqb (Mx.hbegun s) n | _ => false end
   | Some (p, n) => match Mx.log s with EPoint q :: _ => Nat.eqb p q && Nat.eqb (count_point p (Mx.log s)) n | _ => false end
   end.
 (* after a step: fire the armed injection; let a Shutdown that waited for sourcesLock go on once it is free *)
 Definition after_step (fresh : bool) (m : mxi) : mxi :=
   (* `fresh`: the step just taken logged something (a schedule point is passed once) *)
-  let m1 := if fresh && arm_hit (m_arm m) (m_s m) then mkMxi (mx_x (m_s m)) None else m in
+  let m1 := if fresh && arm_hit (m_arm m) (m_s m) then mkMxi (mx_x (m_s m)) None (m_hold m) (m_held m) (m_wait m) else m in
   match Mx.pcx (m_s m1) with
-  | Mx.XBusy => if Mx.holds_slock (m_s m1) then m1 else mkMxi (mx_x (m_s m1)) (m_arm m1)
+  | Mx.XBusy => if Mx.holds_slock (m_s m1) then m1 else set_ms m1 (mx_x (m_s m1))
   | _ => m1
   end.
-Fixpoint mx_drive (t : Mx.tid) (stop : Mx.state -> bool) (fuel : nat) (m : mxi) : mxi :=
+Definition fresh_step (s s1 : Mx.state) : bool := negb (Nat.eqb (length (Mx.log s1)) (length (Mx.log s))).
+(* driving an inner source's goroutine *)
+Fixpoint mx_drive0 (t : Mx.tid) (stop : Mx.state -> bool) (fuel : nat) (m : mxi) : mxi :=
   match fuel with
   | O => m
   | S f =>
-      let s1 := Mx.step (m_s m) t in
-      let m1 := after_step (negb (Nat.eqb (length (Mx.log s1)) (length (Mx.log (m_s m))))) (mkMxi s1 (m_arm m)) in
-      if stop (m_s m1) then m1 else mx_drive t stop f m1
+      let s1 := mstep (m_s m) t in
+      let m1 := after_step (fresh_step (m_s m) s1) (set_ms m s1) in
+      if stop (m_s m1) then m1 else mx_drive0 t stop f m1
   end.
 Definition run_parked (s : Mx.state) : bool := match Mx.pcr s with Mx.PLock | Mx.PRet => true | _ => false end.
 Definition inner_parked (k : nat) (s : Mx.state) : bool :=
@@ -225,21 +251,59 @@ Definition inner_parked (k : nat) (s : Mx.state) : bool :=
   | Some i => match Mx.i_pc i with Mx.IIdle | Mx.IRet | Mx.INew => true | _ => false end
   | None => true
   end.
+Definition mx_release (m : mxi) : mxi :=
+  match m_held m with
+  | None => m
+  | Some h =>
+      let m1 := mx_drive0 (Mx.TIn h) (inner_parked h) 12 m in
+      let m2 := match m_wait m with Some w => mx_drive0 (Mx.TIn w) (inner_parked w) 12 m1 | None => m1 end in
+      mkMxi (m_s m2) (m_arm m2) (m_hold m2) None None
+  end.
+Definition mx_deliver (k : nat) (m : mxi) : mxi :=
+  match m_held m with
+  | Some h =>
+      if Nat.eqb k h then m else
+      match m_wait m with
+      | Some _ => m
+      | None =>
+          let m1 := mx_drive0 (Mx.TIn k) (inner_parked k) 12 m in
+          if wants_lock k (m_s m1) then mkMxi (m_s m1) (m_arm m1) (m_hold m1) (m_held m1) (Some k) else m1
+      end
+  | None =>
+      let m1 := mx_drive0 (Mx.TIn k) (fun s => inner_parked k s || (m_hold m && in_handler_k k s)) 12 m in
+      if m_hold m && in_handler_k k (m_s m1) then mkMxi (m_s m1) (m_arm m1) false (Some k) None else m1
+  end.
+(* driving the Run goroutine: an injection that fires under sourcesLock (points 22-24: the Shutdown started there closes the
+   terminating channel and then waits for the lock) is followed, before the Run goroutine goes on, by the release of a parked
+   handler call — the waiting source makes its test while the source is terminating and not yet terminated *)
+Fixpoint mx_drive (stop : Mx.state -> bool) (fuel : nat) (m : mxi) : mxi :=
+  match fuel with
+  | O => m
+  | S f =>
+      let s1 := mstep (m_s m) Mx.TRun in
+      let fresh := fresh_step (m_s m) s1 in
+      let fired := fresh && arm_hit (m_arm m) s1 in
+      let m1 := after_step fresh (set_ms m s1) in
+      let m2 := if fired && Mx.holds_slock (m_s m1) then mx_release m1 else m1 in
+      if stop (m_s m2) then m2 else mx_drive stop f m2
+  end.
 Definition mx_cmd (fuel : nat) (m : mxi) (c : mcmd) : mxi :=
   match c with
-  | CRound => mx_drive Mx.TRun run_parked fuel m
-  | CDeliver k => mx_drive (Mx.TIn k) (inner_parked k) 12 m
-  | CShutdown => mkMxi (mx_x (m_s m)) (m_arm m)
-  | CArm p n => mkMxi (m_s m) (Some (p, n))
+  | CRound => mx_drive run_parked fuel m
+  | CDeliver k => mx_deliver k m
+  | CShutdown => set_ms m (mx_x (m_s m))
+  | CArm p n => mkMxi (m_s m) (Some (p, n)) (m_hold m) (m_held m) (m_wait m)
+  | CHold => match m_held m with None => mkMxi (m_s m) (m_arm m) true None (m_wait m) | Some _ => m end
+  | CRelease => mx_release m
   end.
 Definition mx_model (nslots : nat) (sup : list (list iev)) (cmds : list mcmd) : Mx.state :=
   let fuel := 3 * nslots + 12 in
   (* the Run goroutine first parks at mux.after_check *)
-  let m0 := mkMxi (Mx.step (Mx.init nslots sup) Mx.TRun) None in
-  let m1 := fold_left (mx_cmd fuel) cmds m0 in
-  (* finish: a Shutdown is made if none was; the Run goroutine is released for good *)
+  let m0 := mkMxi (mstep (Mx.init nslots sup) Mx.TRun) None false None None in
+  (* finish: a held call is released; a Shutdown is made if none was; the Run goroutine is released for good *)
+  let m1 := mx_release (fold_left (mx_cmd fuel) cmds m0) in
   let s2 := mx_x (m_s m1) in
-  let m3 := mx_drive Mx.TRun (fun s => match Mx.pcr s with Mx.PRet => true | _ => false end) (4 * fuel) (mkMxi s2 None) in
+  let m3 := mx_drive (fun s => match Mx.pcr s with Mx.PRet => true | _ => false end) (4 * fuel) (mkMxi s2 None false None None) in
   mx_x (m_s m3).
 
 (* mux.before_sleep (point 21) is a gate of the harness, not an observation point: removed on both sides *)
@@ -251,7 +315,7 @@ Definition model_ok (k : c12_case) : bool :=
   | KEternal sup i o =>
       is_random i ||
       (let s := et_model sup i in
-       log_eqb_for i (rev (Et.log s)) (o_log o) && Bool.eqb (Et.returned s) (o_ret o) && Bool.eqb (Et.terminated s) (o_term o))
+       log_eqb_for (eff_inj (et_fired sup i) i) (rev (Et.log s)) (o_log o) && Bool.eqb (Et.returned s) (o_ret o) && Bool.eqb (Et.terminated s) (o_term o))
   | KJoining lf fa fs ls i o =>
       is_random i ||
       (let s := jn_model lf fa fs ls i in
